@@ -18,7 +18,9 @@ Theorem C17_permanent : forall w pre post p t0 t,
 Proof. exact permanent_holds. Qed.
 Print Assumptions C17_permanent.
 
-(* A block of duration d placed at t0 holds at every time t <= t0 + d, whatever precedes it and
+(* (Durations are the non-negative constants of the source; for d < 0 the interval below lies before
+   the placement and the statement says nothing useful.)
+   A block of duration d placed at t0 holds at every time t <= t0 + d, whatever precedes it and
    whatever follows it up to t (in particular shorter re-blocks do not shorten it). *)
 Theorem C17_timed_full_term : forall w pre post p d t0 t,
   Forall (fun e => time_of e <= t) post -> t <= t0 + d ->
@@ -52,6 +54,17 @@ Theorem C17_exact : forall w evs p t,
   Forall (fun e => time_of e <= t) evs -> query_answer w evs p t = covered evs p t.
 Proof. exact answer_exact. Qed.
 Print Assumptions C17_exact.
+
+(* The first sentence of the property in its own words: while some placed block covers t, the
+   gater lets through neither a dial to p nor a secured connection from p.  (The model has no
+   connection state: connections that exist when the block is placed are closed by the caller --
+   handleConnectReq calls ClosePeer and then blockPeer, so a reconnect landing between the two calls
+   passes InterceptSecured before the block exists; recorded as an observation, outside the claim.) *)
+Theorem C17_no_new_connection_while_blocked : forall evs p t,
+  Forall (fun e => time_of e <= t) evs -> covered evs p t = true ->
+  dial_answer wiring_now evs p t = false /\ secured_answer wiring_now evs p t = false.
+Proof. exact no_new_connection_while_blocked. Qed.
+Print Assumptions C17_no_new_connection_while_blocked.
 
 (* The gater: with the wiring libp2p.New has now (gater installed in the host, service set as
    its blocker -- regenerated from the source), a dial to p and a secured connection from p are
@@ -99,6 +112,22 @@ Theorem C17_checker_accepts_model : forall w evs p t,
   Forall (fun e => time_of e <= t) evs -> classify evs p t (query_answer w evs p t) = None.
 Proof. exact classify_model. Qed.
 Print Assumptions C17_checker_accepts_model.
+
+(* ... in the order-free mode too (cases whose time stamps are not monotone are still judged on the
+   clauses that need no ordering), without any premise. *)
+Theorem C17_checker_accepts_model_unordered : forall w evs p t,
+  classify_gen false evs p t (query_answer w evs p t) = None.
+Proof. exact classify_unordered_model. Qed.
+Print Assumptions C17_checker_accepts_model_unordered.
+
+(* BlockedPeers as the Go function is: an entry whose peer id yields no Ethereum address is
+   skipped (oracle addr_ok); for ids with an address the listing is as in C17_listing. *)
+Theorem C17_listing_go : forall addr_ok m p t,
+  (listed_go addr_ok m p t <> 0 -> snd (is_blocked m p t) = true) /\
+  (addr_ok p = true -> (listed_go addr_ok m p t = 2 <-> exists i, lookup p m = Some i /\ e_dur i = 0)) /\
+  (addr_ok p = false -> listed_go addr_ok m p t = 0).
+Proof. exact listing_go_spec. Qed.
+Print Assumptions C17_listing_go.
 
 (* Regression: blockPeer as it was before commit 6a06465 (unconditional overwrite) violates
    C17_permanent and C17_timed_full_term. *)
